@@ -215,7 +215,7 @@ Definition stderr_str (stdout stderr : stream) : string :=
        end.
 Definition stdout_str (stdout : stream) : string :=
   match stdout with
-  | SDevnull => "/dev/null"        (* sic: no " > " in the code *)
+  | SDevnull => " > /dev/null"
   | SStdout | SPipe => ""
   | x => " > " ++ quote (stream_str x)
   end.
@@ -236,9 +236,9 @@ Definition nonempty_env (e : option env) : bool := match e with Some (_ :: _) =>
 Definition nonempty_str (s : option string) : bool :=
   match s with Some (String _ _) => true | _ => false end.
 
-(* '; '.join(subshell_parts) *)
+(* ' && '.join(subshell_parts) *)
 Definition build_inner (command : list string) (environment : option env) (workdir : option string) : string :=
-  join "; "
+  join " && "
     (app (if nonempty_str workdir then match workdir with Some w => ["cd " ++ quote w] | None => [] end else [])
      (app (if nonempty_env environment
          then match environment with
@@ -247,11 +247,9 @@ Definition build_inner (command : list string) (environment : option env) (workd
          else [])
       [join " " command])).
 
-(* the first line written to the persistent shell *)
+(* the first line written to the persistent shell: always a child shell, with an empty standard input *)
 Definition build_cmd_line (command : list string) (environment : option env) (workdir : option string) : string :=
-  if nonempty_env environment || nonempty_str workdir
-  then "sh -c " ++ quote (build_inner command environment workdir) ++ " 2>&1"
-  else join " " command ++ " 2>&1".
+  "sh -c " ++ quote (build_inner command environment workdir) ++ " < /dev/null 2>&1".
 
 Definition build_shell_command (marker : string) (command : list string) (environment : option env)
     (workdir : option string) : string :=
